@@ -355,14 +355,14 @@ Qed.
 Theorem fallback_completes_all w cp sv h used :
   reachable' w -> zget (w_servers w) (cp_srv cp) = Some sv ->
   client_offer blob cp (offered w cp) (w_now w) (w_fresh w) = Offer blob h used ->
-  o_fsuite cp <> 0 ->
+  o_fsuite cp <> 0 -> cp_half cp = 0 ->
   let r := d_log blob (conn_delta' w cp sv) in
   let v := Z.min (cp_maxv cp) (sv_maxv (sv_cfg sv)) in
   (4 <= v -> server_psk blob open (sv_cfg sv) cp h (w_now w) = S13Full -> r_out r = ODone false false) /\
   (v < 4 -> snd (server_try_resume blob open (sv_cfg sv) (sv_store sv) (o_acc cp) h (w_now w)) = SFull ->
    r_out r = ODone false false).
 Proof.
-  intros HR Z CO Hfs r v. pose proof (reach_inv _ HR) as HI.
+  intros HR Z CO Hfs Hhalf r v. pose proof (reach_inv _ HR) as HI.
   apply Z.eqb_neq in Hfs. split.
   - intros Hv Hd. unfold r, conn_delta. cbv zeta. unfold offered in CO. rewrite CO.
     apply Z.leb_le in Hv. fold v. rewrite Hv, Hfs, Hd. reflexivity.
@@ -371,9 +371,43 @@ Proof.
     destruct (server_try_resume blob open (sv_cfg sv) (sv_store sv) (o_acc cp) h (w_now w)) as [st1 d].
     cbn [snd] in Hd. subst d. rewrite Hfs.
     destruct (sv_usecache (sv_cfg sv)).
-    + rewrite (no_misread w cp h used (w_fresh w + 1) HI CO (or_intror eq_refl)). reflexivity.
-    + rewrite (no_misread w cp h used 0 HI CO (or_introl eq_refl)). reflexivity.
+    + rewrite (no_misread w cp h used (w_fresh w + 1) HI CO (or_intror eq_refl)). rewrite Hhalf. reflexivity.
+    + rewrite (no_misread w cp h used 0 HI CO (or_introl eq_refl)). rewrite Hhalf. reflexivity.
 Qed.
+
+(* ---- only completed handshakes become resumable; resumable is monotone ------------------------------ *)
+(* a handshake that is held up before the server has verified the client's Finished leaves nothing
+   resumable behind: no cache entry, no ticket (connections may overlap: other events, including connections
+   offering the session ID and master secret the client already knows, run while it is suspended) *)
+Theorem suspended_leaves_nothing_resumable w cp sv :
+  let d := conn_delta' w cp sv in
+  r_out (d_log blob d) = OSuspended ->
+  d_issue blob d = None /\ r_sview (d_log blob d) = None /\
+  forall st e, d_store blob d = Some st -> In e st -> In e (sv_store sv).
+Proof.
+  delta_cases; cbn [r_out r_sview]; intros H; try discriminate;
+    (split; [reflexivity|]); (split; [reflexivity|]); intros st e Hs Hin; injection Hs as <-;
+    match goal with
+    | H : server_try_resume _ _ _ _ _ _ _ = (?st1, _) |- _ =>
+        eapply try_resume_store_in; rewrite H; exact Hin
+    end.
+Qed.
+
+(* in every reachable world (any history, any interleaving of open connections) every SessionCache entry
+   stems from a connection whose full handshake COMPLETED (both Finished messages verified) *)
+Theorem cache_only_completed w e :
+  reachable' w -> entries blob w e ->
+  exists r, In r (w_log w) /\ r_out r = ODone false false /\ r_sview r = Some (ce_sess e).
+Proof. intros HR. apply (inv_cache_origin _ _ _ _ _ (reach_inv _ HR)). Qed.
+
+(* resumable is monotone on the server: once a connection bound to the cached Session object has died
+   abnormally there, the object's flag is clear in EVERY later world -- no clean close of another connection
+   sharing the object, no other event, sets it again *)
+Theorem resumable_monotone_server w crec sid sv e :
+  reachable' w -> In crec (w_conns w) -> cr_ks crec = true -> cr_sobj crec = Some sid ->
+  zget (w_servers w) (cr_srv crec) = Some sv -> In e (sv_store sv) -> s_sid (ce_sess e) = sid ->
+  ce_res e = false.
+Proof. intros HR. apply (inv_ks _ _ _ _ _ (reach_inv _ HR)). Qed.
 
 (* ---- completeness of ticket acceptance (honest offer resumes) -------------------------------------- *)
 Lemma try_decrypt_seal keys k n p :
@@ -422,7 +456,7 @@ Definition wit_cfg (maxv : Z) (keys : list Z) (life : Z) : scfg :=
 
 Definition wit_cp (maxv : Z) (offer : option Z) (sni suite : Z) : cparams :=
   {| cp_srv := 0; cp_maxv := maxv; cp_suites := [4865; 4867; 49199]; cp_ems := true; cp_etm := true; cp_sni := sni;
-     cp_srp := 0; cp_ccert := 1; cp_offer := offer; o_acc := [4865; 4867; 49199]; o_fsuite := suite; o_fcbc := false;
+     cp_srp := 0; cp_ccert := 1; cp_offer := offer; cp_half := 0; o_acc := [4865; 4867; 49199]; o_fsuite := suite; o_fcbc := false;
      o_fhash := 256; o_falert := 40 |}.
 
 (* The history that refuted fallback_completes before /repo 51120a0 (F1): TLS 1.2, ticket issued under
@@ -516,7 +550,7 @@ Qed.
    handshake_failure).  Now the same offer resumes with the user name preserved. *)
 Definition wit_cp_srp (offer : option Z) : cparams :=
   {| cp_srv := 0; cp_maxv := 3; cp_suites := [49185; 49182]; cp_ems := true; cp_etm := true; cp_sni := 1;
-     cp_srp := 1; cp_ccert := 0; cp_offer := offer; o_acc := [49185; 49182]; o_fsuite := 49185; o_fcbc := true;
+     cp_srp := 1; cp_ccert := 0; cp_offer := offer; cp_half := 0; o_acc := [49185; 49182]; o_fsuite := 49185; o_fcbc := true;
      o_fhash := 256; o_falert := 40 |}.
 Definition wit_srp_history : list event := [EConn (wit_cp_srp None); EClose 0 0].
 
